@@ -10,12 +10,13 @@ CONSTANTS Side
 Faults == {"eof", "reset", "partial", "close", "closeErr", "end", "endErr", "detachS", "detachSErr", "detachR", "silentEof"}
 \* cut: number of completed steps before the failure; pend: what is pending when it strikes
 Cuts == 0..6
-Pends == {"step", "none", "send", "recv"}
+Pends == {"step", "none", "send", "recv", "close", "end", "detach"}   \* close / end / detach: the local teardown call crosses the failure on the wire
 VARIABLE z
 Init == z = [k |-> "start"]
 Applicable(c, f, p) ==
   /\ (f \in {"end", "endErr"} => c >= 2) /\ (f \in {"detachS", "detachSErr"} => c >= 3) /\ (f = "detachR" => c >= 4)
   /\ (p = "send" => c >= 3) /\ (p = "recv" => c >= 4) /\ (p = "step" => c <= 5)
+  /\ (p = "close" => c >= 1) /\ (p = "end" => c >= 2) /\ (p = "detach" => c >= 3)
 Next == z.k = "start" /\ \E c \in Cuts, f \in Faults, p \in Pends : Applicable(c, f, p) /\ z' = [k |-> "case", c |-> c, f |-> f, p |-> p]
 Spec == Init /\ [][Next]_z
 
@@ -37,6 +38,9 @@ Done(i, c) == IF i > c THEN <<>> ELSE Step(i)[1] \o Step(i)[2] \o Done(i + 1, c)
 Pending(c, p) == CASE p = "step" -> Step(c + 1)[1]
                    [] p = "send" -> <<[e |-> "ASend", l |-> "L1", m |-> 7, len |-> 20]>>
                    [] p = "recv" -> <<[e |-> "ARecv", l |-> "L2"]>>
+                   [] p = "close" -> <<[e |-> "AClose", err |-> ""]>>
+                   [] p = "end" -> <<[e |-> "AEnd", s |-> "s1"]>>
+                   [] p = "detach" -> <<[e |-> "ADetach", l |-> "L1", closed |-> TRUE]>>
                    [] OTHER -> <<>>
 Fault(f) == CASE f = "eof" -> <<[e |-> "PEof", keep_read |-> TRUE]>>
               [] f = "silentEof" -> <<[e |-> "PEof", keep_read |-> FALSE]>>
